@@ -19,6 +19,8 @@ ID_CLASSES = ("search", "nonsearch", "completed", "next", "zero", "large", "alia
 
 
 def cid_class(model, mid):
+    if not isinstance(mid, int):
+        return "none"
     if mid in model.srch:
         return "search"
     if mid in model.out:
@@ -52,7 +54,7 @@ class C09(PropBase):
                       "closed_then_request_probes", "long_session_preroll", "unimplemented_protocol_op_to_client")
 
     def init_op(self, rng):
-        return {"op": "init", "sessions": [{"name": "c", "role": "c"}], "observe_pending": True,
+        return {"op": "init", "sessions": [{"name": "c", "role": "c"}], "observe_pending": True, "invalid_units": True,
                 "illegal_p": rng.choice([0.1, 0.3, 0.5]), "bad_p": rng.choice([0.05, 0.12, 0.3]),
                 "chunk": rng.choice(["whole", "whole", "mixed", "byte"]), "big": rng.choice([0.03, 0.12]), "style": policy.wire_style(rng),
                 "preroll": rng.choice([0] * 23 + [130, 258])}
@@ -81,6 +83,9 @@ class C09(PropBase):
         model = se.model
         init = w.init
         g = Gen(rng, big=init["big"])
+        gb = Gen(rng, big=init["big"])  # the byzantine server's generator (known controls with odd values allowed)
+        gb.odd_known = True
+        gb.invalid_known = True
         x = rng.random()
         if se.inbox and x < 0.45:
             bk, scr = policy.buf_kind(rng)
@@ -96,12 +101,12 @@ class C09(PropBase):
                 # request-type message, unbind or notice of disconnection towards the client
                 r = rng.random()
                 if r < 0.5:
-                    return {"op": "inject", "to": "c", "msg": policy.byz_request(g, rng.choice([0, 1, model.last_id, model.last_id + 1]),
+                    return {"op": "inject", "to": "c", "msg": policy.byz_request(gb, rng.choice([0, 1, model.last_id, model.last_id + 1]),
                                                                                 rng.choice(["BindRequest", "SearchRequest", "ExtendedRequest"]))}
                 if r < 0.7:
                     return {"op": "inject", "to": "c", "msg": {"t": "UnbindRequest", "id": rng.choice([0, 1]), "controls": []}}
                 mid = policy.pick_sorted(rng, model.out) if model.out and rng.random() < 0.6 else 0
-                return {"op": "inject", "to": "c", "msg": policy.byz_response(g, mid, "ExtendedResponse", notice=True)}
+                return {"op": "inject", "to": "c", "msg": policy.byz_response(gb, mid, "ExtendedResponse", notice=True)}
             if rng.random() < 0.04:
                 # an operation the library does not implement, with an id of any class
                 cls = rng.choice(["search", "nonsearch", "completed", "next", "zero"])
@@ -111,7 +116,7 @@ class C09(PropBase):
             if init.get("preroll") and model.out and rng.random() < 0.25:
                 mid = policy.client_id_class_pick(rng, model, "alias")
                 kind = rng.choice(policy.RESPONSE_KINDS)
-                return {"op": "inject", "to": "c", "msg": policy.byz_response(g, mid, kind, None)}
+                return {"op": "inject", "to": "c", "msg": policy.byz_response(gb, mid, kind, None)}
             if bad or not model.out:
                 kinds = policy.RESPONSE_KINDS
                 k = (self.idx + w.events) % (len(kinds) * 5)
@@ -127,7 +132,7 @@ class C09(PropBase):
                 else:
                     kind = rng.choice(policy.RESPONSE_KINDS)
             code = 14 if (kind == "BindResponse" and rng.random() < 0.3) else None
-            op = {"op": "inject", "to": "c", "msg": policy.byz_response(g, mid, kind, code)}
+            op = {"op": "inject", "to": "c", "msg": policy.byz_response(gb, mid, kind, code)}
             if rng.random() < 0.25:
                 op["dup"] = True  # the same response twice (duplicate final / entry twice)
             return op
